@@ -113,6 +113,23 @@ fn edits<X: Sx>(ctx: &Ctx, idx: u64, l: usize, d: Vec<usize>, all_flips: bool) {
             }
         }
     }
+    // a disclosed index listed twice, once with the true message and once with an unsigned one (lists stay
+    // equally long), in both orders; and an index repeated with its own message
+    for k in 0..rr {
+        for forged_first in [false, true] {
+            let mut m = dm.clone();
+            let mut di = h.d.clone();
+            let pos = if forged_first { k } else { k + 1 };
+            m.insert(pos, b"role: admin".to_vec());
+            di.insert(pos, h.d[k]);
+            rj("index-repeated-with-forged-message", format!("{k}/{forged_first}"), &h.pk, &h.proof, &m, &di, ho, po);
+        }
+        let mut m = dm.clone();
+        let mut di = h.d.clone();
+        m.insert(k, dm[k].clone());
+        di.insert(k, h.d[k]);
+        rj("pair-repeated", format!("{k}"), &h.pk, &h.proof, &m, &di, ho, po);
+    }
     // one disclosed pair dropped / one (true) pair added for a hidden position / bogus pair added
     for k in 0..rr {
         let mut m = dm.clone();
